@@ -249,6 +249,20 @@ def nested_transform_roundtrip(ck, tmp, P):
                 ck.disagree(key='Document/nested-transforms/raises-' + type(e).__name__, site='svgpathtools/document.py / svg_io_sax.py', what='nested transforms %s / %s / %s raised %r' % (t1, t2, t3, e),
                             case={'combo': ci, 'path': k}, expected='paths', observed=repr(e), driver='nested')
                 continue
+            # a path that came out of a Document (it carries its source element, transform attribute included) added to a Document without attributes:
+            # it is already flattened and must come back as it is
+            try:
+                src = sp.Document(fn).paths()[0]
+                doc2 = sp.Document(fn)
+                doc2.add_path(src)
+                both = doc2.paths()
+                ok2 = len(both) == 2 and all(len(q_) == len(want) and all(abs(a_.point(0.3) - b_.point(0.3)) <= 1e-6 * (1 + abs(b_.point(0.3))) for a_, b_ in zip(q_, want)) for q_ in both)
+            except Exception as e:      # noqa
+                ok2, both = False, e
+            if not ok2:
+                ck.disagree(key='Document/add_path-of-a-flattened-path', site='svgpathtools/document.py:Document.add_path',
+                            what='a path returned by Document.paths() (under %s > %s > %s) added with add_path(p): paths() = %r, expected twice %r' % (t1, t2, t3, both, want),
+                            case={'combo': ci, 'path': k, 'readd': True}, expected=repr(want), observed=repr(both), driver='nested')
             for who, ps in got.items():
                 ok = len(ps) == 1 and len(ps[0]) == len(want) and all(type(a_) is type(b_) and abs(a_.start - b_.start) <= 1e-6 * (1 + abs(b_.start)) and abs(a_.end - b_.end) <= 1e-6 * (1 + abs(b_.end)) and
                                                                      abs(a_.point(0.3) - b_.point(0.3)) <= 1e-6 * (1 + abs(b_.point(0.3))) for a_, b_ in zip(ps[0], want))
@@ -257,6 +271,27 @@ def nested_transform_roundtrip(ck, tmp, P):
                                 what='%s of a path under %s > %s > %s: %r, expected %r' % (who, t1, t2, t3, ps, want), case={'combo': ci, 'path': k, 'reader': who},
                                 expected=repr(want), observed=repr(ps), driver='nested')
                     break
+
+
+def polygon_rewrite(ck, tmp):
+    """a polygon that repeats its first point, read by svg2paths (n lines, the last of zero length), written by wsvg and read back"""
+    src = os.path.join(tmp, 'poly_src.svg')
+    with open(src, 'w') as f:
+        f.write('<svg xmlns="%s"><polygon points="0,0 4,0 4,3 0,0"/><polyline points="1,1 5,1 5,4 1,1"/><polygon points="2,2 6,2 6,5"/></svg>' % NS)
+    try:
+        ps, _ = sp.svg2paths(src)
+        fn = os.path.join(tmp, 'poly_out.svg')
+        sp.wsvg(ps, filename=fn)
+        back = {'svg2paths': sp.svg2paths(fn)[0], 'Document': sp.Document(fn).paths(), 'SaxDocument': sp.SaxDocument(fn).flatten_all_paths()}
+    except Exception as e:      # noqa
+        ck.disagree(key='wsvg/polygon-rewrite-raises', site='svgpathtools/paths2svg.py:wsvg', what='polygon file -> svg2paths -> wsvg -> read back raised %r' % e, case={'polygon': True},
+                    expected='paths', observed=repr(e), driver='wsvg')
+        return
+    for who, got in back.items():
+        ck.case(fp=('polygon-rewrite', who), nontrivial=True)
+        if [list(p_) for p_ in got] != [list(p_) for p_ in ps]:
+            ck.disagree(key='wsvg/polygon-rewrite-differs', site='svgpathtools/paths2svg.py:wsvg', what='%s reads back %r, written %r' % (who, got, ps), case={'polygon': True, 'reader': who},
+                        expected=repr(ps), observed=repr(got), driver='wsvg')
 
 
 def run(ck):
@@ -269,6 +304,8 @@ def run(ck):
     mc = open(pm.__file__.rsplit('/', 2)[0] + '/spec/SvgHist_MC.cfg').read()
     ck.tlc('SvgHist', mc if not quick else mc.replace('MaxOps = 5', 'MaxOps = 4'), need_actions=['AddPath', 'AddGroup', 'Save', 'Reload'], timeout=3000)
     P = pool()
+    PE = dict(P)
+    PE[1] = sp.Path()
     tmp = tempfile.mkdtemp(prefix='c18_')
     try:
         st = {'n': 0}
@@ -276,7 +313,8 @@ def run(ck):
         def on_case(c, every=1):
             st['n'] += 1
             if st['n'] % every == 0:
-                replay_history(ck, c, tmp, P)
+                # every second history with an empty path (d="") in the place of path 1
+                replay_history(ck, c, tmp, P if (st['n'] // every) % 2 else PE)
         d = 'SPECIFICATION Spec\nCONSTANTS MaxOps = %d\n NPaths = 3\n Names = {"a", "b"}\n Variant = "correct"\nINVARIANT Dump\n'
         ck.tlc('SvgHist', d % 2, workers=1, coverage=False, on_case=on_case)
         ck.tlc('SvgHist', d % 3, workers=1, coverage=False, on_case=lambda c: on_case(c, 60 if quick else 6), timeout=3000)
@@ -285,6 +323,7 @@ def run(ck):
         ck.count('histories', st['n'])
         wsvg_roundtrips(ck, rnd, tmp, P, 12 if quick else 40)
         nested_transform_roundtrip(ck, tmp, P)
+        polygon_rewrite(ck, tmp)
     finally:
         shutil.rmtree(tmp, ignore_errors=True)
 
